@@ -11,44 +11,48 @@ LEAN_TARGETS = ["PV.C18.Thm"]
 DRIVER = "drv_c18"
 HARNESS = {"bin": "pvh_c18", "features": "default"}
 THEOREMS = [
-    "PV.C18.parse_spec_eq_partial",
+    "PV.C18.parse_spec_eq",
     "PV.C18.parse_spec_complete_partial",
+    "PV.C18.parse_spec_rejects",
     "PV.C18.insertSeparator_eq_groupRight",
     "PV.C18.group_spec",
+    "PV.C18.group_zero_padding_spec",
     "PV.C18.align_spec",
     "PV.C18.zero_flag_spec",
     "PV.C18.format_int_eq_partial",
     "PV.C18.format_str_eq_partial",
     "PV.C18.format_bool_eq_partial",
+    "PV.C18.no_panic_str",
     "PV.C18.no_panic_partial",
     "PV.C18.no_panic_fails",
     "PV.C18.format_eq_fails",
-    "PV.C18.dev_conv_prefix",
     "PV.C18.dev_z_flag",
-    "PV.C18.dev_group_exp_panic",
-    "PV.C18.dev_str_eq_align",
-    "PV.C18.dev_str_sign",
-    "PV.C18.dev_str_alt",
-    "PV.C18.dev_str_precision_bytes",
-    "PV.C18.dev_str_precision_after_padding",
-    "PV.C18.dev_str_zero_flag",
-    "PV.C18.dev_bool_default",
-    "PV.C18.dev_c_precision",
-    "PV.C18.dev_c_nonascii_width",
     "PV.C18.dev_c_surrogate",
-    "PV.C18.dev_group_width",
-    "PV.C18.dev_width_wraps",
+    "PV.C18.dev_str_eq_align",
+    "PV.C18.dev_str_zero_flag",
     "PV.C18.dev_precision_over_i32",
     "PV.C18.dev_z_flag_float",
-    "PV.C18.dev_group_exp_panic_float",
-    "PV.C18.dev_group_nonfinite",
     "PV.C18.dev_int_above_f64max",
-    "PV.C18.dev_float_group_exponent",
-        "PV.C18.dev_float_tie",
+    "PV.C18.dev_float_tie",
     "PV.C18.dev_float_alt_no_point",
-        "PV.C18.dev_float_no_dot_zero",
+    "PV.C18.dev_float_no_dot_zero",
     "PV.C18.dev_float_percent_overflow",
     "PV.C18.dev_precision_over_u16",
+    "PV.C18.repaired_conv_prefix",
+    "PV.C18.repaired_group_exp",
+    "PV.C18.repaired_group_exp_float",
+    "PV.C18.repaired_group_width",
+    "PV.C18.repaired_group_nonfinite",
+    "PV.C18.repaired_float_group_exponent",
+    "PV.C18.repaired_str_sign",
+    "PV.C18.repaired_str_alt",
+    "PV.C18.repaired_str_precision_bytes",
+    "PV.C18.repaired_str_precision_after_padding",
+    "PV.C18.repaired_bool_default",
+    "PV.C18.repaired_c_precision",
+    "PV.C18.repaired_c_nonascii_width",
+    "PV.C18.repaired_c_surrogate_no_panic",
+    "PV.C18.repaired_width_limit",
 ]
 TRUSTED = [
     "Lean 4.33.0 kernel; axioms limited to propext, Classical.choice, Quot.sound",
@@ -65,21 +69,25 @@ TRUSTED = [
     "spec off derive(Debug)), lean/Drv/C18.lean",
 ]
 PARTIAL = [
-    "all theorems are *_partial: they hold on an explicit decidable InDomain predicate; each excluded shape is a "
-    "listed known finding with a decide'd witness on the model (Thm.lean, section 'witnessed negations')",
+    "full: parse_spec_eq, parse_spec_rejects, insertSeparator_eq_groupRight, group_spec, group_zero_padding_spec, "
+    "align_spec, zero_flag_spec, no_panic_str (every spec string, every text shorter than 2^30)",
+    "format_int/str/bool_eq_partial and no_panic_partial hold on the decidable InDomain, which now excludes only: "
+    "'=' alignment and a padding '0' flag on str (the parser folds the flag into align), 'c' on a surrogate code "
+    "point (a Rust String cannot hold it), float presentation types on int/bool, width >= 2^30, |n| >= 2^(2^28); "
+    "each remaining deviating shape is a listed known finding with a decide'd witness (Thm.lean section 7)",
+    "parse_spec_complete_partial: the 'z' flag and widths/precisions above i32::MAX are rejected by the parser",
     "float formatting (types e E f F g G n % and none on doubles, and on ints/bools through to_f64) is modelled and "
     "tied by correspondence + CPython oracle but has no Lean equality theorem (the reference would be PV.Dec itself)",
-    "width/precision are bounded in the theorems by the machine limits the code uses (usize, i32, u16 precision)",
 ]
 READY = True
 TECHNIQUE = ("Lean 4 theorems over a hand-written model of format.rs + exhaustive small-scope / random differential "
              "correspondence with the real crate, real code judged by CPython format()")
-LEVEL_TEXT = ("Machine-checked Lean 4 theorems for every spec string, every integer, every text and both booleans inside "
-              "an explicit decidable domain: the modelled spec parser equals the reference grammar, separate_integer/"
-              "insert_separator equal Python's grouping with zero padding for all digit strings and widths, "
-              "format_sign_and_align equals Python's padding, and format_int/format_string/format_bool equal the "
-              "reference pyFormat and never panic; every excluded shape is a witnessed deviation listed as a known "
-              "finding. The model is tied to the Rust code on every run by exhaustive (all specs of length <= 3/4 over a "
+LEVEL_TEXT = ("Machine-checked Lean 4 theorems about the repaired format.rs: for every spec string the modelled parser "
+              "equals the reference grammar (full), separate_integer/insert_separator equal Python's grouping with zero "
+              "padding for all digit strings and widths (full), format_sign_and_align equals Python's padding (full), "
+              "format_string never panics on any spec (full), and format_int/format_string/format_bool equal the "
+              "reference pyFormat on an explicit decidable domain that excludes only the shapes still listed as known "
+              "findings (each with a witnessed deviation) and float presentation types. The model is tied to the Rust code on every run by exhaustive (all specs of length <= 3/4 over a "
               "29-symbol alphabet x 30 values) and random correspondence, and the real code is judged by CPython.")
 LEVEL_NOTE = ("Trusted: Lean kernel, model fidelity as sampled, PV.Dec/PV.C17 as the meaning of Rust float printing, "
               "bigint/char/String contracts, harness, generator, CPython 3.11.7 as the meaning of Python.")
@@ -319,10 +327,10 @@ def _shapes(p, eff, kind, value, out):
     if kind == "s":
         if p.group or p.type not in (None, "s"):
             return
-        if p.align == "=":
-            add("str-eq-align-accepted")
         if p.sign or p.alt:
             return                      # rejected by both
+        if p.align == "=":
+            add("str-eq-align-accepted")
         w = p.width or 0
         if p.prec is not None and 2 ** 31 <= p.prec < 2 ** 63:
             add("precision-over-i32-rejected")
@@ -681,13 +689,13 @@ def streams(ctx):
     # 3. grouping x width sweep (the separate_integer / insert_separator arithmetic)
     reqs = []
     gi = [0, 7, 12, 123, 1234, -1234, 12345, 123456, 1234567, 2 ** 64, 10 ** 30, BIG]
-    for pre in ["0", "+0", "#0", " #0", "0=", "*=0", "-0"]:
+    for pre in ["0", "+0", "#0", " #0", "0=", "*=0", "-0", "", ">", "<", "x^", "0>", "0<", "+#"]:
         for w in range(0, 45 if ctx.quick else 80):
             for g in ",_":
                 for t in ["", "d", "b", "o", "x", "X"]:
                     reqs.append(mkreq(f"{pre}{w}{g}{t}", gi))
     out.append(Stream("grouping-width-sweep", reqs, kind="exhaustive", exhaustive=True,
-                      note="zero-padded grouping: every width 0..44 (79) x separator x radix x sign/prefix forms x 12 ints"))
+                      note="grouping with and without sign-aware zero padding: every width 0..44 (79) x separator x radix x sign/prefix forms x 12 ints"))
 
     # 4. structured random specs (mostly valid), values outside the listed finding shapes
     rng = ctx.rng("random")
